@@ -82,7 +82,7 @@ def direct(rng, tier, focus=()):
     big = tier == 'thorough'
     fams = [('concurrent', lambda r: S.gen_concurrent(r), 12000 if big else 900),
             ('wrap', lambda r: S.gen_wrap(r), 8 if big else 2),
-            ('live-run-across-wrap', lambda r: S.gen_wrap_run(r), 12 if big else 3),
+            ('live-run-across-wrap', lambda r: S.gen_wrap_run(r), 30 if big else 10),
             ('chained-requests', lambda r: S.gen_chained(r), 6000 if big else 600),
             ('bidirectional', lambda r: S.gen_bidirectional(r), 8000 if big else 800),
             ('parked-answers', lambda r: S.gen_park_flush(r), 4000 if big else 400),
